@@ -74,3 +74,73 @@ Definition glynn_plain (n : nat) (M : mat) : Q :=
            (signs k))
     / inject_Z (2 ^ Z.of_nat k)
   end.
+
+(* ------------------------------------------------------------------ *)
+(* The reachable family named by the property, as enumerable finite sets (used by the
+   bounded theorems; nothing here mentions the model).
+
+   State matrix of a run with m plus-ensembles: n = m + 2; row/column 0 belong to [0-],
+   rows/columns 1..m to the plus ensembles, the last row/column is the ghost ensemble
+   (always zero, always locked).  The path in slot r has non-zero weight in the first
+   ks[r] plus ensembles (a "staircase" row); the [0-] path only in [0-]. *)
+
+Definition stair_row (m : nat) (ws : list Q) : list Q := (0 :: ws) ++ repeat 0 (S (m - length ws)).
+
+Definition wstair_matrix (rows : list (list Q)) : list (list Q) :=
+  let m := length rows in
+  ((1 :: repeat 0 (S m)) :: map (stair_row m) rows) ++ [repeat 0 (S (S m))].
+
+(* 0/1 staircase with supports ks *)
+Definition stair_matrix (ks : list nat) : list (list Q) := wstair_matrix (map (fun k => repeat 1 k) ks).
+
+(* all lists of length len over the alphabet *)
+Fixpoint lists_over {A} (alphabet : list A) (len : nat) : list (list A) :=
+  match len with
+  | O => [[]]
+  | S l => flat_map (fun x => map (cons x) (lists_over alphabet l)) alphabet
+  end.
+
+(* every sequence of supports (= every staircase in every row order) *)
+Definition all_supports (m : nat) : list (list nat) := lists_over (seq 1 m) m.
+(* every lock vector over [0-] and the m plus ensembles; the ghost is locked *)
+Definition all_locks (m : nat) : list (list bool) := map (fun l => l ++ [true]) (lists_over [false; true] (S m)).
+
+(* non-decreasing support sequences only (the order inf_retis sorts into) *)
+Fixpoint nondecr_from (lo m len : nat) : list (list nat) :=
+  match len with
+  | O => [[]]
+  | S l => flat_map (fun k => map (cons k) (nondecr_from k m l)) (seq lo (S m - lo))
+  end.
+Definition sorted_supports (m : nat) : list (list nat) := nondecr_from 1 m m.
+
+(* weighted staircase rows: every non-empty weight list of length <= m over the alphabet *)
+Definition all_wrows (ws : list Q) (m : nat) : list (list Q) := flat_map (lists_over ws) (seq 1 m).
+Definition all_wstairs (ws : list Q) (m : nat) : list (list (list Q)) := lists_over (all_wrows ws m) m.
+
+(* idle (= unlocked) positions and the idle block *)
+Definition idle_idx (locks : list bool) : list nat :=
+  filter (fun i => negb (nth i locks true)) (seq 0 (length locks)).
+Definition idle_block (W : list (list Q)) (locks : list bool) : list (list Q) :=
+  let idx := idle_idx locks in map (fun i => map (fun j => nth j (nth i W []) 0) idx) idx.
+
+(* the property's right-hand side, as a predicate on a full-size result P:
+   P = Pspec on the idle block, 0 on every busy row and column *)
+Definition is_Pspec_on_idle (W : list (list Q)) (locks : list bool) (P : nat -> nat -> Q) : Prop :=
+  let idx := idle_idx locks in
+  let k := length idx in
+  let S := of_lists (idle_block W locks) in
+  (forall a b, (a < k)%nat -> (b < k)%nat -> P (nth a idx O) (nth b idx O) == Pspec k S a b) /\
+  (forall i j, (i < length locks)%nat -> (j < length locks)%nat ->
+               nth i locks true = true \/ nth j locks true = true -> P i j == 0).
+
+(* the same, decidable (perm of the idle block evaluated once) *)
+Definition is_Pspec_on_idle_b (W : list (list Q)) (locks : list bool) (P : nat -> nat -> Q) : bool :=
+  let idx := idle_idx locks in
+  let k := length idx in
+  let S := of_lists (idle_block W locks) in
+  let d := perm k S in
+  forallb (fun a => forallb (fun b =>
+      Qeq_bool (P (nth a idx O) (nth b idx O)) (S a b * perm (pred k) (minor a b S) / d)) (seq 0 k)) (seq 0 k)
+  && forallb (fun i => forallb (fun j =>
+      if nth i locks true || nth j locks true then Qeq_bool (P i j) 0 else true)
+      (seq 0 (length locks))) (seq 0 (length locks)).
